@@ -105,6 +105,19 @@ pub fn run(ctx: &Ctx, rep: &mut Report) {
             }
         }
     }
+    // configurations on the edge of the envelope (work area of exactly 65536 positions) with short final blocks
+    let edge: Vec<(usize, usize, &str)> = vec![(65532, 4, "high"), (65528, 8, "def"), (4, 65532, "low"), (8, 65528, "def"), (65535, 1, "def"), (1, 65535, "def")];
+    for (ei, &(k, r, codec)) in edge.iter().enumerate() {
+        for (bi, b) in [34usize, 130, 64].into_iter().enumerate() {
+            if !ctx.thorough() && b == 64 {
+                continue;
+            }
+            let fast = engines_fast();
+            let eng = fast[(ei + bi) % fast.len()];
+            cases.push(Kv::new().with("eng", eng).with("codec", codec).with("k", k).with("r", r).with("bytes", b).with("soil", soil).with("seed", seed));
+        }
+    }
+    rep.bound("edge_cfg", J::s(format!("{edge:?} with shard sizes 34 and 130 (thorough: and 64)")));
     // API layers with several MiB of data in one call
     for codec in ["oneshot", "rs", "def"] {
         for &(k, r) in &[(3usize, 2usize), (5, 5)] {
